@@ -1726,6 +1726,18 @@ func (e *CoreExtension) filterMerge(value interface{}, args ...interface{}) (int
 	// Handle merging arrays/slices
 	rv := reflect.ValueOf(value)
 	if rv.Kind() == reflect.Slice || rv.Kind() == reflect.Array {
+		// A typed result can only hold the arguments if every element is assignable to it;
+		// otherwise merge into an untyped list
+		elemType := rv.Type().Elem()
+		for _, arg := range args {
+			argRv := reflect.ValueOf(arg)
+			if argRv.Kind() == reflect.Slice || argRv.Kind() == reflect.Array {
+				if !argRv.Type().Elem().AssignableTo(elemType) {
+					return e.functionMerge(append([]interface{}{value}, args...)...)
+				}
+			}
+		}
+
 		result := reflect.MakeSlice(reflect.SliceOf(rv.Type().Elem()), rv.Len(), rv.Len())
 
 		// Copy original values
@@ -1759,6 +1771,17 @@ func (e *CoreExtension) filterMerge(value interface{}, args ...interface{}) (int
 
 	// Handle merging maps
 	if rv.Kind() == reflect.Map {
+		// A typed result can only hold the arguments if their keys and values are assignable to it;
+		// otherwise merge into an untyped map
+		for _, arg := range args {
+			argRv := reflect.ValueOf(arg)
+			if argRv.Kind() == reflect.Map {
+				if !argRv.Type().Key().AssignableTo(rv.Type().Key()) || !argRv.Type().Elem().AssignableTo(rv.Type().Elem()) {
+					return e.functionMerge(append([]interface{}{value}, args...)...)
+				}
+			}
+		}
+
 		// Create a new map with the same key and value types
 		resultMap := reflect.MakeMap(rv.Type())
 
